@@ -149,8 +149,13 @@ theorem silent_piece (callee : Callee) (vars : Vars) (B : Blocks) (cur : Option 
     apply concatM_ok_nil
     intro r hr
     rw [List.mem_map] at hr
-    obtain ⟨i, _, rfl⟩ := hr
-    exact silent_list callee vars B cur body ((x, i) :: loc) h
+    obtain ⟨⟨i, k⟩, _, rfl⟩ := hr
+    exact silent_list callee vars B cur body _ h
+  | .withv x v body, loc, h => by
+    simp only [countExtP] at h
+    simp only [pieceWith]
+    exact silent_list callee vars B cur body _ h
+  | .loopAttr _, _, _ => by simp [pieceWith]
   | .ifc f body, loc, h => by
     simp only [countExtP] at h
     simp only [pieceWith]
@@ -181,6 +186,12 @@ theorem quiet_topPiece (L : List Tpl) (fuel : Nat) (vars : Vars) :
     refine ⟨st.extSoFar, ?_, Nat.le_refl _⟩
     simp only [topPiece, live_dead hd, blockLive_dead hd]
     rw [silent_piece _ _ _ _ (.forLoop x items body) [] (by simpa [countExtP] using hq)]
+  | .withv x v body, rl, st, hd, hq => by
+    simp only [quietP, beq_iff_eq] at hq
+    refine ⟨st.extSoFar, ?_, Nat.le_refl _⟩
+    simp only [topPiece, live_dead hd, blockLive_dead hd]
+    rw [silent_piece _ _ _ _ (.withv x v body) [] (by simpa [countExtP] using hq)]
+  | .loopAttr a, rl, st, hd, _ => ⟨st.extSoFar, by simp [topPiece, pieceWith, live_dead hd], Nat.le_refl _⟩
   | .ext _, _, _, _, hq => by simp [quietP] at hq
   | .ifc f body, rl, st, hd, hq => by
     simp only [quietP] at hq
@@ -226,6 +237,8 @@ theorem root_topPiece (L : List Tpl) (fuel : Nat) (vars : Vars) (B : Blocks) :
   | .superCall k, he, rl, es, _ => ⟨es, by simp [topPiece, live_fresh, blockLive_fresh, liftTop]; split <;> simp_all⟩
   | .selfCall n, he, rl, es, _ => ⟨es, by simp [topPiece, live_fresh, blockLive_fresh, liftTop]; split <;> simp_all⟩
   | .forLoop x it body, he, rl, es, _ => ⟨es, by simp [topPiece, live_fresh, blockLive_fresh, liftTop]; split <;> simp_all⟩
+  | .withv x v body, he, rl, es, _ => ⟨es, by simp [topPiece, live_fresh, blockLive_fresh, liftTop]; split <;> simp_all⟩
+  | .loopAttr a, he, rl, es, _ => ⟨es, by simp [topPiece, live_fresh, blockLive_fresh, liftTop]; split <;> simp_all⟩
   | .block n sc rq body, he, rl, es, _ => ⟨es, by simp [topPiece, live_fresh, blockLive_fresh, liftTop]; split <;> simp_all⟩
   | .ext _, _, _, _, hq => by simp [noLiveExtP] at hq
   | .ifc f body, he, rl, es, hq => by
@@ -403,6 +416,7 @@ def agreeP (chain : List Tpl) : Piece → Bool
   | .block n _ rq body => reqAgree chain n rq && agreeL chain body
   | .forLoop _ _ body => agreeL chain body
   | .ifc _ body => agreeL chain body
+  | .withv _ _ body => agreeL chain body
   | _ => true
 def agreeL (chain : List Tpl) : List Piece → Bool
   | [] => true
@@ -538,8 +552,15 @@ theorem sim_piece (chain : List Tpl) (B : Blocks) (callee : Callee) (callee' : S
     simp only [pieceWith, piece]
     congr 1
     apply List.map_congr_left
-    intro i _
-    exact sim_list chain B callee callee' hB hnd hcal vars cur cur' hc body ((x, i) :: loc) ha
+    intro ik _
+    exact sim_list chain B callee callee' hB hnd hcal vars cur cur' hc body _ ha
+  | .withv x v body, loc, ha => by
+    simp only [agreeP] at ha
+    simp only [pieceWith, piece]
+    exact sim_list chain B callee callee' hB hnd hcal vars cur cur' hc body _ ha
+  | .loopAttr a, loc, _ => by
+    simp only [pieceWith, piece, lookupVar, if_true]
+    cases List.lookup ("loop." ++ a) (loc ++ vars) <;> rfl
   | .ifc f body, loc, ha => by
     simp only [agreeP] at ha
     simp only [pieceWith, piece, sim_list chain B callee callee' hB hnd hcal vars cur cur' hc body loc ha]
@@ -574,6 +595,10 @@ theorem agree_declsP (chain : List Tpl) : (p : Piece) → agreeP chain p = true 
   | .ifc _ body, ha, d, hd => by
     simp only [agreeP] at ha; simp only [declsP] at hd
     exact agree_declsL chain body ha d hd
+  | .withv _ _ body, ha, d, hd => by
+    simp only [agreeP] at ha; simp only [declsP] at hd
+    exact agree_declsL chain body ha d hd
+  | .loopAttr _, _, d, hd => by simp [declsP] at hd
   | .text _, _, d, hd => by simp [declsP] at hd
   | .var _, _, d, hd => by simp [declsP] at hd
   | .superCall _, _, d, hd => by simp [declsP] at hd
@@ -631,6 +656,9 @@ theorem agreeP_of_decls (chain : List Tpl) : (p : Piece) →
     simp only [agreeP]; exact agreeL_of_decls chain body (fun d hd => h d (by simpa [declsP] using hd))
   | .ifc _ body, h => by
     simp only [agreeP]; exact agreeL_of_decls chain body (fun d hd => h d (by simpa [declsP] using hd))
+  | .withv _ _ body, h => by
+    simp only [agreeP]; exact agreeL_of_decls chain body (fun d hd => h d (by simpa [declsP] using hd))
+  | .loopAttr _, _ => rfl
   | .text _, _ => rfl
   | .var _, _ => rfl
   | .superCall _, _ => rfl
@@ -747,6 +775,10 @@ theorem inv_topPiece (L : List Tpl) (fuel : Nat) (vars : Vars) (he : Bool) :
   | .selfCall n, rl, st, st', o, hi, h => by
     simp only [topPiece] at h; split at h <;> simp at h; obtain ⟨rfl, _⟩ := h; exact hi
   | .forLoop x it body, rl, st, st', o, hi, h => by
+    simp only [topPiece] at h; split at h <;> simp at h; obtain ⟨rfl, _⟩ := h; exact hi
+  | .withv x v body, rl, st, st', o, hi, h => by
+    simp only [topPiece] at h; split at h <;> simp at h; obtain ⟨rfl, _⟩ := h; exact hi
+  | .loopAttr a, rl, st, st', o, hi, h => by
     simp only [topPiece] at h; split at h <;> simp at h; obtain ⟨rfl, _⟩ := h; exact hi
   | .block n sc rq body, rl, st, st', o, hi, h => by
     simp only [topPiece] at h; split at h <;> simp at h; obtain ⟨rfl, _⟩ := h; exact hi
